@@ -48,6 +48,8 @@ var c04InnerOrder = []string{"read", "read-own-local", "param-shadows", "assign-
 func c04Program(d c04Dims) []string {
 	st := []string{
 		"deep = (n) -> if n <= 0 0 else 1 + deep(n - 1)",
+		"deepl = (n) -> {\n  la = n\n  lb = la\n  if n <= 0 0 else 1 + deepl(n - 1)\n}",
+		"wide = (n) -> {\n" + wideLocals(140) + "  n\n}",
 		"ap = (fn) -> fn()",
 		"apx = (fn, v) -> fn(v)",
 		"id = (v) -> v",
@@ -80,6 +82,10 @@ func c04Program(d c04Dims) []string {
 		b.WriteString("  x = \"fx2\"\n")
 	case "grow-assign":
 		b.WriteString("  t = deep(150)\n  x = \"fx2\"\n")
+	case "grow-locals-assign":
+		b.WriteString("  t = deepl(60)\n  x = \"fx2\"\n")
+	case "grow-wide-assign":
+		b.WriteString("  t = wide(1)\n  x = \"fx2\"\n")
 	case "loop-assign":
 		b.WriteString("  for i <- fromto(0, 2) x = \"fx\" + toa(i)\n")
 	}
@@ -150,7 +156,7 @@ func init() {
 	core.Register(&core.Check{
 		ID:    "C04",
 		Level: "exploration",
-		Rule: "scope skeletons = the full product of: a global of the same name exists or not x the definer has 0 / 1 / 199 other locals before x x x is not defined in the definer / a parameter / a local / a for variable x 11 inner function shapes (plain read, own local, shadowing parameter, shadowing assignment, a second nesting level with and without the documented explicit copy, a body that assigns the caller's names, one that assigns its parameter, reads of other names, reads inside a loop, a for variable of the same name) x the captured variable is left alone / updated / updated after stack growth / updated in a loop after the inner function was created x the inner function is called, passed down, passed through another function, returned, returned inside an array, returned inside a nested array x (for escaped functions) stack churn by deep recursion / an allocating loop / further calls of the definer; plus recursive definers at depth 3/50/200. Every write stores a unique tag. " +
+		Rule: "scope skeletons = the full product of: a global of the same name exists or not x the definer has 0 / 1 / 2 / 3 / 199 other locals before x x x is not defined in the definer / a parameter / a local / a for variable x 11 inner function shapes (plain read, own local, shadowing parameter, shadowing assignment, a second nesting level with and without the documented explicit copy, a body that assigns the caller's names, one that assigns its parameter, reads of other names, reads inside a loop, a for variable of the same name) x the captured variable is left alone / updated / updated after stack growth (by pushes, by frames with locals, by one wide frame) / updated in a loop after the inner function was created x the inner function is called, passed down, passed through another function, returned, returned inside an array, returned inside a nested array x (for escaped functions) stack churn by deep recursion / an allocating loop / further calls of the definer; plus recursive definers at depth 3/50/200. Every write stores a unique tag. " +
 			"Oracle: every value read equals the reference model's by-name resolution (own, else one-level captured, else global); globals, the caller's variables and its argument are rendered before and after every call and must be unchanged; escaped functions must keep reading the tags their captured variables had when the definer returned. distinct = distinct program; non-trivial = programs inside the described domain in which the inner function ran",
 		Assumptions: []string{"reference model refsem (by-name scoping with one retained level)", "programs whose reads resolve differently under the lexical and the dynamic rule (D-use-before-def) are skipped and counted"},
 		Exec:        sessExec(c04Opt),
@@ -161,7 +167,7 @@ func init() {
 
 func c04Run(w *core.W) {
 	impl.Init()
-	pads := []int{0, 1, 199}
+	pads := []int{0, 1, 2, 3, 199}
 	emit := func(stmts []string) bool {
 		runSession(w, stmts, c04Opt)
 		return !w.Expired("time budget reached")
@@ -171,7 +177,7 @@ func c04Run(w *core.W) {
 		for _, pad := range pads {
 			for _, def := range []string{"none", "param", "local", "forvar"} {
 				for _, inner := range c04InnerOrder {
-					for _, upd := range []string{"none", "assign", "grow-assign", "loop-assign"} {
+					for _, upd := range []string{"none", "assign", "grow-assign", "grow-locals-assign", "grow-wide-assign", "loop-assign"} {
 						if def == "none" && upd != "none" && !w.Thorough() {
 							continue // assigning x after the inner function was created makes reads ambiguous: thorough only (counted as skipped)
 						}
@@ -215,4 +221,15 @@ func c04Run(w *core.W) {
 			}
 		}
 	}
+}
+
+func wideLocals(n int) string {
+	var b strings.Builder
+	prev := "n"
+	for i := 0; i < n; i++ {
+		v := "w" + letters(i)[1:]
+		fmt.Fprintf(&b, "  %s = %s\n", v, prev)
+		prev = v
+	}
+	return b.String()
 }
